@@ -1,4 +1,5 @@
 import ShredModel.Lemmas.WorldSpec
+import ShredModel.Lemmas.CellWord
 /-!
 # C08 — World borrows: shared xor exclusive, violations panic, drops release
 
@@ -6,11 +7,18 @@ Statements are about `World.step` / `World.run` of `Model/World.lean` — the fu
 driver executes. `&mut World` operations are quantified over under the hypothesis Rust's borrow
 checker enforces: no guard is alive (`World.Legal`).
 
-*Partial with respect to the property text:* the clause "from many threads concurrently" is
-covered only under the assumption that every cell operation of `atomic_refcell` (`try_borrow`,
-`borrow_mut`, a guard's `drop`) is atomic, i.e. that a concurrent history is equivalent to some
-interleaving of the operations modelled here; the theorems then apply to that interleaving.
-The atomics themselves (a dependency outside the crate) are not modelled.
+*The clause "from many threads concurrently".* Every cell operation of `atomic_refcell` 0.1.14
+(`try_borrow`, `try_borrow_mut`, a guard's `drop`) is one atomic read-modify-write (or store) on
+the cell's borrow word, decided on the value that operation itself returns
+(`Model/CellWord.lean` transcribes the four of them). Operations on one atomic location are
+totally ordered, so whatever any number of threads do to a cell is *a sequence* of these steps;
+`any_interleaving` (below) shows that every sequence answers exactly what the abstract borrow
+state of `Model/World.lean` answers and leaves a word that stands for that state. The theorems
+of this file about all legal histories therefore cover all interleavings. Assumed, not proved:
+that the transcription is faithful (a dependency outside the crate; tied only by the
+many-thread stress rounds of the world engine), single-location coherence of atomics, and that
+the two overflow paths of `check_overflow` (2^63 live shared guards, 2^62 refused attempts
+during one exclusive borrow) are not reached.
 -/
 namespace Shred
 namespace C08
@@ -324,6 +332,31 @@ example : ((run {} (sample.take 4)).step (.scope [1] [.fetch 1 false true, .iter
     ((run {} (sample.take 4)).step (.scope [1] [.fetch 1 false true, .iter false, .iter false] true)).1.cells =
       (run {} (sample.take 4)).cells := by decide
 
+/-! ### many threads -/
+
+/-- **C08 (any number of threads, any interleaving).** Tag every atomic step on a cell's borrow word
+with the thread that performs it: whatever the interleaving, granted / refused answers are those of
+the abstract borrow state (free / `n` shared / exclusive) run over the same steps, and the word
+left behind stands for that state. (`H` is `HIGH_BIT`; legality: a guard is dropped only while it
+exists, fewer than `H - 1` shared guards are alive.) -/
+theorem any_interleaving {H : Nat} (hH : 1 < H) (steps : List (Nat × CellWord.COp))
+    (hl : CellWord.LegalRun H .free (steps.map (·.2))) :
+    CellWord.Rel H (CellWord.runWord H 0 (steps.map (·.2))).1 (CellWord.runAbs .free (steps.map (·.2))).1 ∧
+    (CellWord.runWord H 0 (steps.map (·.2))).2 = (CellWord.runAbs .free (steps.map (·.2))).2 :=
+  CellWord.run_refines hH (steps.map (·.2)) (by simp [CellWord.Rel]) hl
+
+/-- while an exclusive guard exists (the word has the high bit) no attempt of any thread is granted;
+while shared guards exist no exclusive attempt is -/
+theorem no_aliasing_grant {H : Nat} (hH : 0 < H) (w : Nat) :
+    (H ≤ w → (CellWord.wordStep H w .tryShared).2 = false ∧ (CellWord.wordStep H w .tryExcl).2 = false) ∧
+    (0 < w → (CellWord.wordStep H w .tryExcl).2 = false) :=
+  ⟨fun h => CellWord.no_grant_while_exclusive h hH, fun h => CellWord.no_exclusive_while_shared h⟩
+
+/-- not vacuous: two threads, reader granted, writer refused, reader drops, writer granted,
+reader refused (and leaves its increment behind), writer drops: the word is 0 again -/
+example : (CellWord.runWord 8 0 [.tryShared, .tryExcl, .dropShared, .tryExcl, .tryShared, .dropExcl]) =
+    (0, [true, false, true, true, false, true]) := by decide
+
 end C08
 end Shred
 
@@ -347,3 +380,5 @@ end Shred
 #print axioms Shred.C08.take_is_step
 #print axioms Shred.C08.entry_guard_unwinds
 #print axioms Shred.C08.exec_closure_panics
+#print axioms Shred.C08.any_interleaving
+#print axioms Shred.C08.no_aliasing_grant
